@@ -18,6 +18,8 @@ import KafkaVerif.Lemmas.PullReader
 import KafkaVerif.Lemmas.ReaderWorld
 import KafkaVerif.Lemmas.ReaderSystem
 import KafkaVerif.Lemmas.ByteReader
+import KafkaVerif.Lemmas.BufVarInt
+import KafkaVerif.Lemmas.ByteHeader
 
 namespace KV.C02
 
@@ -64,17 +66,23 @@ theorem decoder_statements :
 
 /-- the facts of `(*reader).run` / `initialize` the loop LTS (Model/ReaderLoopLTS.lean) transcribes: the sentinel values,
 the resolution switch and the seek to the resolved offset, `attempt = 0; offset = start` after a successful initialize,
-`errcount++` at the end of an iteration, and the action of every simple error class of readLoop's switch
-(continue with errcount 0 / close and leave the loop / close and return / sendError and leave the loop) -/
+`errcount++` at the end of an iteration, the action of every simple error class of readLoop's switch
+(continue with errcount 0 / close and leave the loop / close and return / sendError and leave the loop), and what `run`
+does with the connection itself (`runConnDirect`): it only closes it and moves its offset without asking the broker
+(`Seek` with SeekDontCheck) — every step that waits for the broker goes through `r.initialize` / `r.read` /
+`r.readOffsets`, which arm a deadline first: each `Env` event of Model/ReaderWorld.lean stands for a call that returns
+(seeded/C09-m8 calls `conn.ReadOffsets()` directly in the OffsetOutOfRange branch: no deadline, the loop can block
+for ever in one event) -/
 theorem reader_loop_facts :
     Gen.decoderFacts.firstOffsetConst = -2 ∧ Gen.decoderFacts.lastOffsetConst = -1 ∧
     (∀ first last : Int, resolve Gen.decoderFacts.firstOffsetConst first last = first ∧
                          resolve Gen.decoderFacts.lastOffsetConst first last = last) ∧
     Gen.decoderFacts.initResolve = "switch { case $1 == FirstOffset: $1 = $2 case $1 == LastOffset: $1 = $3 case $1 < $2: $1 = $2 }" ∧
     Gen.decoderFacts.initSeeksResolved = true ∧ Gen.decoderFacts.runResetsAttempt = true ∧
+    Gen.decoderFacts.runConnDirect = "Close,Seek+DontCheck" ∧
     Gen.decoderFacts.runErrcountInc = true ∧
     Gen.decoderFacts.loopBranches = "$1 == nil -> errcount=0,continue | errors.Is($1, NotLeaderForPartition) -> close,break-loop | errors.Is($1, OffsetOutOfRange) ->  | errors.Is($1, RequestTimedOut) -> errcount=0,continue | errors.Is($1, UnknownTopicOrPartition) -> close,break-loop | errors.Is($1, context.Canceled) -> close,return | errors.Is($1, errUnknownCodec) -> sendError,break-loop | errors.Is($1, io.EOF) -> errcount=0,continue | errors.Is($1, io.ErrNoProgress) -> close,break-loop | default -> " := by
-  refine ⟨by decide, by decide, ?_, rfl, rfl, rfl, rfl, rfl⟩
+  refine ⟨by decide, by decide, ?_, rfl, rfl, rfl, rfl, rfl, rfl⟩
   intro first last
   constructor <;> simp [resolve, Gen.decoderFacts]
 
@@ -259,6 +267,47 @@ theorem wrapper_bytes (enc : Int → Bytes → Bytes) (crc : Bytes → Nat) (m :
     (hv : RW.InRange RW.M32 ((enc codec (encMsgs crc inner)).length : Int)) :
     BR.AllOrShort BR.readWrapV1 (encB1 (wrapMsg enc crc m codec inner)) (some (enc codec (encMsgs crc inner))) :=
   BR.readWrapV1_spec (wrapMsg enc crc m codec inner) hk (by simpa [wrapMsg, Spec.RB.optLen] using hv)
+
+/-- `header_bytes`: where the tokenizer reads a fixed-size header (`readH2`: 61 bytes of a v2 batch, `readH1`: 18 / 26
+bytes of a v0 / v1 message, plain or wrapper) the Go code (`readHeader`: `r.readInt64(&r.header.firstOffset)`,
+`r.readInt32(&r.header.length)`, … through the `remain` wrappers, `switch r.header.magic`) obtains the same fields —
+base offset, last offset delta, first timestamp, record count, attributes and the payload size `length − 49`, resp.
+offset, magic, attributes and the size of key + value — with the whole header inside what is left of the message set,
+consuming exactly the header; with the header cut anywhere by the end of the set every path ends in errShortRead.
+With `record_bytes`, `message_bytes`, `wrapper_bytes` and `varint_refill` every token of `tokenize` has its byte-level
+counterpart in the statements of message_reader.go / read.go. -/
+theorem header_bytes (c : Nat) (hc : c < RW.M32) :
+    (∀ f : Spec.RB.FrameV2, f.WF →
+      BR.AllOrShort BR.readHeaderB (encH2 c f)
+        (.v2 ⟨f.baseOffset, f.lastOffsetDelta, f.firstTs, f.count, f.attributes, f.payload.length⟩) ∧
+      ∀ x, readH2 (encH2 c f ++ x)
+        = some (⟨f.baseOffset, f.lastOffsetDelta, f.firstTs, f.count, f.attributes, f.payload.length⟩, x)) ∧
+    (∀ m : Spec.RB.Msg, m.WF →
+      BR.AllOrShort BR.readHeaderB (encH1 c m) (.v1 ⟨m.offset, m.magic, m.attributes, (encB1 m).length⟩) ∧
+      ∀ x, readH1 (encH1 c m ++ x) = some (⟨m.offset, m.magic, m.attributes, (encB1 m).length⟩, x)) :=
+  ⟨fun f hf => ⟨BR.readHeaderB_v2 c f hf, fun x => readH2_encH2 c hc f hf x⟩,
+   fun m hm => ⟨BR.readHeaderB_v1 c m hm, fun x => readH1_encH1 c hc m hm x⟩⟩
+
+/-- `varint_refill`: the byte-level theorems above know a reader as the bytes it can still deliver.  The one function of
+read.go whose control flow depends on where the *buffered* bytes end is `readVarInt` (the fixed-width readers use
+`Peek(n)`, which bufio completes across refills): `Model/BufVarInt.lean` is its loop as written, over a bufio.Reader
+(`buf`) refilled by reads of the connection (`chunks`, one element per read, then EOF).  For every buffered prefix and
+every sequence of reads it returns the value (or errShortRead), leaves the stream and hands back the `remain` that
+`BR.readVarInt` defines on the concatenation — so `record_bytes`, `message_bytes`, `wrapper_bytes` and with them the
+token-level theorems hold however the network cuts a response, and `remain` always drops by exactly the bytes taken
+from the stream (seeded/C06-m7 lost the bytes consumed before a refill: the tail of the batch then eats bytes of the
+next response). -/
+theorem varint_refill (sz : Nat) (b : BV.BufRd) : (BV.readVarIntBuf sz b).abs = BR.readVarInt ⟨b.stream, sz⟩ :=
+  BV.readVarIntBuf_eq sz b
+
+/-- a two-byte varint (300 zigzag-encoded = 600 = 0xD8 0x04) whose second byte arrives with the next read, 10 bytes of
+the set left: the value, one byte of the next chunk left over, `remain` 8 — the same as with both bytes buffered -/
+example : BV.readVarIntBuf 10 ⟨[0xD8], [[0x04, 0x07]]⟩ = .ok (300, ⟨[0x07], []⟩, 8) ∧
+    BV.readVarIntBuf 10 ⟨[0xD8, 0x04, 0x07], []⟩ = .ok (300, ⟨[0x07], []⟩, 8) ∧
+    BV.readVarIntBuf 10 ⟨[], [[0xD8], [], [0x04], [0x07]]⟩ = .ok (300, ⟨[], [[0x07]]⟩, 8) ∧
+    BV.readVarIntBuf 1 ⟨[0xD8], [[0x04, 0x07]]⟩ = .error (.short, ⟨[], [[0x04, 0x07]]⟩, 0) ∧
+    BV.readVarIntBuf 10 ⟨[0xD8], []⟩ = .error (.short, ⟨[], []⟩, 9) := by
+  refine ⟨?_, ?_, ?_, ?_, ?_⟩ <;> simp [BV.readVarIntBuf, BV.varLoop, BV.round, BV.scan, RW.unzigzag]
 
 /-! ### the decoder as the Go code is written (Model/PullReader.lean)
 
